@@ -393,6 +393,27 @@ def specials():
         return lambda: read_qcow2(blob)
     out.append(("qcow2", "inflate-bomb-256MiB-in-512B-cluster", qcow2_bomb, 300, 768))
 
+    def qcow2_bomb_64k(work):
+        # 64 KiB clusters: the compressed-cluster descriptor can span 255 sectors, enough deflate data for hundreds of MiB
+        l2 = {0: {"t": "N", "h": 1, "sub": []}, 1: {"t": "C", "h": 0, "sub": []}, 2: {"t": "N", "h": 2, "sub": []}}
+        img = {"ext": False, "datafile": False, "l2n": 8192, "s": 1, "l1": {0: True}, "l2": l2, "back": -1, "size": 3}
+        vf, _, info = enc_qcow2.build(img, cluster_bits=16, K=1)
+        m = bytearray(_blob(vf))
+        l1 = struct.unpack(">Q", m[40:48])[0]
+        l2o = struct.unpack(">Q", m[l1:l1 + 8])[0] & 0x00FFFFFFFFFFFE00
+        co = zlib.compressobj(9, zlib.DEFLATED, -12)
+        bomb = co.compress(bytes(120 << 20)) + co.flush()
+        assert len(bomb) < 255 * 512
+        where = (len(m) + 511) // 512 * 512
+        m = m.ljust(where + 256 * 512, b"\0")
+        m[where:where + len(bomb)] = bomb
+        # descriptor layout for cluster_bits 16: offset in the low 54 bits, (sectors - 1) in the 8 bits above
+        m[l2o + 8:l2o + 16] = struct.pack(">Q", (1 << 62) | (254 << 54) | where)
+        blob = bytes(m)
+        del m, bomb
+        return lambda: read_qcow2(blob)
+    out.append(("qcow2", "inflate-bomb-120MiB-in-64KiB-cluster", qcow2_bomb_64k, 400, 768))
+
     def gz_vmtar_bomb(work):
         from dissect.hypervisor.util import vmtar
         b, F, T = base_vmtar()
